@@ -169,3 +169,32 @@ pub fn repo_sample_count() -> u64 {
         .map(|d| d.filter_map(|e| e.ok()).filter(|e| e.file_name().to_string_lossy().ends_with(".deflate")).count() as u64)
         .unwrap_or(0)
 }
+
+/// zlib streams with as many block boundaries as possible (memLevel 1-3: 128-512 tokens per block) from
+/// plaintexts with long repeats, at the lazy levels: state that the predictor carries from one block into
+/// the next (deferred lazy matches, pending references, hash chains) gets hundreds of chances per stream
+pub fn boundary_dense_stream(r: &mut Rng, max_plain: usize) -> Stream {
+    loop {
+        let n = 20_000 + r.usize_below(max_plain.max(20_001) - 20_000);
+        let kind = *r.pick(&[0u64, 1, 1, 2, 5, 5, 6]);
+        let p = plain::make_kind(r, kind, n);
+        let level = 4 + r.below(6) as i32;
+        let memlevel = 1 + r.below(3) as i32;
+        let wbits = if r.chance(3, 4) { 15 } else { 9 + r.below(7) as i32 };
+        if let Some(d) = comp::zlib_raw(&p, level, 0, wbits, memlevel, &[]) {
+            return Stream {
+                source: 0,
+                recipe: format!(
+                    "boundary-dense: zlib level={} strategy=0 wbits={} memlevel={} on {}[{}]",
+                    level,
+                    wbits,
+                    memlevel,
+                    plain::kind_name(kind),
+                    p.len()
+                ),
+                bytes: d,
+                plain: p,
+            };
+        }
+    }
+}
